@@ -50,7 +50,7 @@ def main() -> int:
     server_t.close()
 
     # binding 2: HTTP, same server object
-    client = make_sync_client(server, signing_key=b"k" * 32)
+    client = make_sync_client(server)
     with http_connect(Svc, client=client) as svc:
         seen = svc.kind()
     print(f"http call   -> ctx.kind={seen!r}; hook calls so far: {[k.value for k in impl.hook_calls]}; server.transport_kind={server.transport_kind}")
